@@ -853,7 +853,10 @@ impl<'a> Exec<'a> {
         let (alone_for_hits, unlimited, alone_all) = match reference {
             Ok(x) => x,
             Err(p) => {
-                self.violate("C06", "C06.reference_panic", ix, &p.loc.clone(), obs, format!("reference stores panicked: {}", p.render()), String::new());
+                // a search that panics on a one-record or unlimited store is C01's finding (its workload
+                // is full of tiny stores), not a statement about how records influence each other:
+                // the run ends here and is counted as aborted by a panic
+                self.out.stopped_by_panic = Some(p);
                 return;
             }
         };
@@ -1132,7 +1135,7 @@ impl<'a> Exec<'a> {
                         }
                     }
                     Err(p) => {
-                        self.violate("C07", "C07.pair_panic", ix, &p.loc.clone(), p.render(), fmt_hits(&want), String::new());
+                        // as above: a panicking search is reported by C01
                         self.on_panic(ix, &p);
                         return;
                     }
